@@ -207,7 +207,95 @@ pub fn nil_and_real_keys<S: Src>(s: &mut S) {
     s.reached("c07.nil_and_real_keys");
 }
 
+/// full observation against the model: length, every model key readable with its value, keys in
+/// insertion order, a few absent keys absent
+fn observe_all(t: &CaoLangTable, m: &Model) {
+    assert!(t.len() == m.n, "C07.len_counts_distinct_keys");
+    let mut i = 0;
+    while i < MAXE {
+        let k = t.nth_key(i);
+        if i < m.n {
+            assert!(matches!(k, Value::Integer(x) if x == m.keys[i]), "C07.nth_key_follows_insertion_order");
+            assert!(ival(t.get(&Value::Integer(m.keys[i]))) == Some(m.vals[i]), "C07.get_returns_last_value_set_or_nothing");
+        } else {
+            assert!(matches!(k, Value::Nil), "C07.nth_key_beyond_length_is_nil");
+        }
+        i += 1;
+    }
+    let mut n = 0;
+    for (k, v) in t.iter() {
+        assert!(n < m.n, "C07.iter_visits_each_entry_once");
+        assert!(matches!(k, Value::Integer(x) if *x == m.keys[n]), "C07.iter_follows_insertion_order");
+        assert!(matches!(v, Value::Integer(x) if *x == m.vals[n]), "C07.iter_yields_current_values");
+        n += 1;
+    }
+    assert!(n == m.n, "C07.iter_visits_each_entry_once");
+}
+
+/// Scripts of operations with CONCRETE keys and solver-chosen VALUES (key hashing and probing
+/// then fold to constants, which is what makes longer sequences affordable): after every
+/// operation the table is compared with the insertion-ordered model in full.
+/// ops: (0,k) set k; (1,k) remove k; (2,_) append; (3,_) pop
+pub fn script<S: Src, const WHICH: u8>(s: &mut S) {
+    let ops: &[(u8, i64)] = match WHICH {
+        0 => &[(0, 10), (0, 3), (0, 7), (1, 10)],
+        1 => &[(2, 0), (2, 0), (3, 0), (2, 0)],
+        2 => &[(0, 5), (0, -2), (1, 5), (3, 0), (3, 0)],
+        _ => &[(0, 1), (0, 2), (1, 1), (0, 1)],
+    };
+    let mut t = CaoLangTable::with_capacity(8, proxy()).unwrap();
+    let mut m = Model {
+        keys: [0; MAXE],
+        vals: [0; MAXE],
+        n: 0,
+    };
+    let mut i = 0;
+    while i < ops.len() {
+        let (op, k) = ops[i];
+        match op {
+            0 => {
+                let v = s.i64();
+                assert!(t.insert(Value::Integer(k), Value::Integer(v)).is_ok(), "C07.set_ok");
+                m.set(k, v);
+            }
+            1 => {
+                assert!(t.remove(Value::Integer(k)).is_ok(), "C07.remove_ok");
+                m.remove(k);
+            }
+            2 => {
+                let v = s.i64();
+                assert!(t.append(Value::Integer(v)).is_ok(), "C07.append_ok");
+                let mut key = m.n as i64;
+                while m.get(key).is_some() {
+                    key += 1;
+                }
+                m.set(key, v);
+            }
+            _ => {
+                let r = t.pop();
+                if m.n == 0 {
+                    assert!(matches!(r, Ok(Value::Nil)), "C07.pop_on_empty_is_nil");
+                } else {
+                    let (pk, pv) = (m.keys[m.n - 1], m.vals[m.n - 1]);
+                    assert!(matches!(r, Ok(Value::Integer(x)) if x == pv), "C07.pop_returns_most_recent_value");
+                    m.remove(pk);
+                    assert!(t.get(&Value::Integer(pk)).is_none(), "C07.popped_key_is_absent");
+                }
+            }
+        }
+        assert!(t.len() == m.n, "C07.len_counts_distinct_keys");
+        i += 1;
+    }
+    observe_all(&t, &m);
+    std::mem::forget(t);
+    s.reached("c07.script");
+}
+
 crate::harnesses! {
+    c07_script_0 / 12 => script::<_, 0>;
+    c07_script_1 / 12 => script::<_, 1>;
+    c07_script_2 / 12 => script::<_, 2>;
+    c07_script_3 / 12 => script::<_, 3>;
     c07_set_pre0 / 12 => set_then_observe::<_, 0>;
     c07_set_pre2 / 12 => set_then_observe::<_, 2>;
     c07_set_pre4_growth / 16 => set_then_observe::<_, 4>;
